@@ -14,7 +14,10 @@ Record qcase := QC {
   qc_resps : list (N * list pubmsg);       (* per request ever sent: what was published on its reply subject *)
   qc_npub : N;                             (* number of event.<rid>.query messages published for it *)
   qc_exited : bool;                        (* the listener goroutine was seen returning *)
-  qc_complete : bool                       (* the run was carried to the end: expiry handled, callbacks settled *)
+  qc_complete : bool;                      (* the run was carried to the end: expiry handled, callbacks settled *)
+  qc_subj : N;                             (* the subject it subscribed to and published (interned per service object) *)
+  qc_prev : list N;                        (* subjects of the query events created earlier on the same service object, all Serve runs *)
+  qc_stale : list (list pubmsg)            (* per request sent to its subject in a LATER Serve run: what was published on the reply subject *)
 }.
 
 (* ---- decidable equalities ---- *)
@@ -100,7 +103,9 @@ Definition required_error (p : payload) (o : list pubmsg) : bool :=
           5 the query event expired but the callback was not called with nil
           6 a malformed payload or missing query was not answered with the required error
           7 the query event expired but the listener goroutine did not return
-          8 a callback ran for a request that was never accepted into the channel, or ran twice *)
+          8 a callback ran for a request that was never accepted into the channel, or ran twice
+          9 the subject is not fresh: an earlier query event of the same service object (any Serve run) had it
+         10 a request sent, after a restart, to the subject of a query event of the previous run was answered *)
 Definition viol_case (c : qcase) : list N :=
   let tr := qc_trace c in
   let calls := qc_calls c in
@@ -120,7 +125,9 @@ Definition viol_case (c : qcase) : list N :=
   (if qc_complete c && subok && has_expire tr && negb (qc_exited c) then [7%N] else []) ++
   (if forallb (fun i => existsb (fun l => match l with LQArrive m true => N.eqb (m_id m) i | _ => false end) tr) ids
       && (fix nodup (l : list N) := match l with [] => true | x :: r => negb (memN x r) && nodup r end) ids
-   then [] else [8%N]).
+   then [] else [8%N]) ++
+  (if subok && memN (qc_subj c) (qc_prev c) then [9%N] else []) ++
+  (if forallb (fun o => Nat.eqb (length o) 0) (qc_stale c) then [] else [10%N]).
 
 Fixpoint run_idx {A} (f : A -> list N) (i : N) (cs : list A) : list (N * N) :=
   match cs with
